@@ -3,9 +3,11 @@ import Sudachi.Proofs.CharCat
 # C17 — Character classes of a code point are the union of all definitions covering it
 
 Model: `CharCat.compile` (`character_category.rs: compile`, `collect_boundaries`) and
-`CharCat.lookup` (`get_category_types`, with `slice::binary_search` entered by its contract
-`searchIdx`).  Quantifiers: every list of definition lines that loads (each `begin < end`, which
-the loader enforces) and every code point.
+`CharCat.lookup` (`get_category_types`), which calls `CharCat.bsearch`, a transcription of the
+standard library's `slice::binary_search_by` (rustc 1.95.0, the toolchain the harness is built with);
+its documented contract (`searchIdx`, a linear scan) is PROVED of it (`binary_search_contract`), not
+assumed.  Quantifiers: every list of definition lines that loads (each `begin < end`, which the loader
+enforces) and every code point.
 -/
 namespace C17
 open CharCat
@@ -16,6 +18,77 @@ reported by bisection over the compiled table is the union of the classes of all
 theorem lookup_compile_eq_union (rs : List CatRange) (hwf : ∀ r ∈ rs, r.b < r.e) (x : Nat) :
     lookup (compile rs) x = some (spec rs x) := by
   rw [lookup_eq_denF _ (sinc_compile rs), compile_correct rs hwf]
+
+/-- **Bisection meets its contract.**  On every strictly increasing slice the transcribed
+`binary_search_by` loop (halving `size`, branch-free `base` update, final three-way comparison)
+returns exactly the contract value: `Ok(i)` with `l[i] = x`, else `Err` of the insertion point. -/
+theorem binary_search_contract (l : List Nat) (hs : SInc l) (x : Nat) :
+    bsearch l x = some (searchIdx l x) :=
+  bsearch_eq_searchIdx l hs x
+
+/-- what the contract value is: the flag says whether `x` occurs, the index is the number of
+elements smaller than `x` (so `l[i] = x` on a hit), for every strictly increasing slice -/
+theorem binary_search_meaning (l : List Nat) (hs : SInc l) (x : Nat) :
+    ∃ i b, bsearch l x = some (i, b) ∧ i ≤ l.length ∧ (b = true ↔ l[i]? = some x) ∧ (b = true ↔ x ∈ l) ∧
+      (∀ j (h : j < l.length), j < i → l[j] < x) ∧ (∀ j (h : j < l.length), i ≤ j → x ≤ l[j]) := by
+  -- the lower bound exists: take the length of the prefix of elements `< x`
+  have key : ∀ (l : List Nat), SInc l → ∃ k, k ≤ l.length ∧
+      (∀ j (h : j < l.length), j < k → l[j] < x) ∧ (∀ j (h : j < l.length), k ≤ j → x ≤ l[j]) := by
+    intro l
+    induction l with
+    | nil => intro _; exact ⟨0, by simp, by intro j h; simp at h, by intro j h; simp at h⟩
+    | cons a as ih =>
+      intro hs
+      by_cases ha : a < x
+      · obtain ⟨k, hk, h1, h2⟩ := ih hs.tail
+        refine ⟨k + 1, by simpa using hk, ?_, ?_⟩
+        · intro j h hj
+          cases j with
+          | zero => simpa using ha
+          | succ j' => simpa using h1 j' (by simpa using h) (by omega)
+        · intro j h hj
+          cases j with
+          | zero => omega
+          | succ j' => simpa using h2 j' (by simpa using h) (by omega)
+      · refine ⟨0, by simp, by intro j h hj; omega, ?_⟩
+        intro j h _
+        cases j with
+        | zero => simp; omega
+        | succ j' =>
+          have := hs.head_lt _ (List.getElem_mem (by simpa using h : j' < as.length))
+          simp only [List.getElem_cons_succ]; omega
+  obtain ⟨k, hk, h1, h2⟩ := key l hs
+  refine ⟨k, decide (l[k]? = some x), ?_, hk, by simp, ?_, h1, h2⟩
+  · rw [bsearch_eq_searchIdx l hs, searchIdx_eq l x k hk h1 h2]
+  · simp only [decide_eq_true_eq]
+    constructor
+    · intro h; exact List.mem_of_getElem? h
+    · intro hx
+      obtain ⟨j, hj, rfl⟩ := List.getElem_of_mem hx
+      by_cases hjk : j < k
+      · have := h1 j hj hjk; omega
+      · by_cases hjk' : j = k
+        · subst hjk'; exact List.getElem?_eq_getElem hj
+        · have hkl : k < l.length := by omega
+          have := sinc_getElem l hs k j hj (by omega)
+          have := h2 k hkl (Nat.le_refl _)
+          omega
+
+/-- memory safety of the two `get_unchecked` calls of `binary_search_by`: for ANY slice (sorted or
+not) and any key the transcribed loop never reads outside the slice -/
+theorem binary_search_in_range (l : List Nat) (x : Nat) : bsearch l x ≠ none :=
+  bsearch_in_range l x
+
+/-- `compile`'s own `boundaries.binary_search(&range.begin)`: for every loaded line the search over the
+collected boundaries is a hit (the `panic!("there can not be not found boundaries")` arm is
+unreachable) at the position holding `begin` — the position `applyRange` finds by scanning (it is
+unique, the boundaries being strictly increasing). -/
+theorem compile_search_hits (rs : List CatRange) (r : CatRange) (hr : r ∈ rs) :
+    ∃ i, bsearch (collectBoundaries rs) r.b = some (i, true) ∧ (collectBoundaries rs)[i]? = some r.b := by
+  obtain ⟨i, b, h1, _, h3, h4, _, _⟩ := binary_search_meaning (collectBoundaries rs) (sinc_collect rs) r.b
+  have hb : b = true := h4.mpr ((mem_collect rs r.b).mpr ⟨r, hr, Or.inl rfl⟩)
+  subst hb
+  exact ⟨i, h1, h3.mp rfl⟩
 
 /-- `spec` really is the union: a class bit is reported iff some covering line carries it
 (when at least one class is carried at all). -/
@@ -59,5 +132,14 @@ example : (∀ r ∈ [⟨48, 58, 16⟩, ⟨53, 54, 4⟩, (⟨58, 65, 8⟩ : CatR
     compile [⟨48, 58, 16⟩, ⟨53, 54, 4⟩, ⟨58, 65, 8⟩] = [(48, 1), (53, 16), (54, 20), (58, 16), (65, 8)] ∧
     lookup (compile [⟨48, 58, 16⟩, ⟨53, 54, 4⟩, ⟨58, 65, 8⟩]) 53 = some 20 := by
   refine ⟨by decide, by decide, by decide⟩
+
+/-- non-vacuity of `binary_search_contract`: hits, misses below / between / above, odd and even
+lengths, the one-element and the empty slice -/
+example : SInc [48, 53, 54, 58, 65] ∧
+    bsearch [48, 53, 54, 58, 65] 53 = some (1, true) ∧ bsearch [48, 53, 54, 58, 65] 65 = some (4, true) ∧
+    bsearch [48, 53, 54, 58, 65] 0 = some (0, false) ∧ bsearch [48, 53, 54, 58, 65] 57 = some (3, false) ∧
+    bsearch [48, 53, 54, 58, 65] 66 = some (5, false) ∧ bsearch [48, 53, 54, 58] 54 = some (2, true) ∧
+    bsearch [7] 7 = some (0, true) ∧ bsearch [7] 9 = some (1, false) ∧ bsearch [] 9 = some (0, false) := by
+  refine ⟨by simp [SInc], by decide, by decide, by decide, by decide, by decide, by decide, by decide, by decide, by decide⟩
 
 end C17
